@@ -385,8 +385,8 @@ func compactExpr(e string) string {
 }
 
 // normalizeTriggerPredicate rewrites SQL logical/equality operators to expr-lang
-// form: AND->&&, OR->||, and a bare '=' (not already part of ==, >=, <=, !=)
-// becomes '=='. String literals and backtick identifiers are skipped so
+// form: AND->&&, OR->||, NOT (any letter case)->not, and a bare '=' (not already
+// part of ==, >=, <=, !=) becomes '=='. String literals and backtick identifiers are skipped so
 // operator-like text inside them is preserved. Mirrors the lowering the rsql
 // parser applies, so SQL-sourced predicates are unaffected.
 func normalizeTriggerPredicate(s string) string {
@@ -445,6 +445,20 @@ func normalizeTriggerPredicate(s string) string {
 					b.WriteString("||")
 					i += 1
 					prev = '|'
+					continue
+				}
+			}
+			// expr-lang only knows the lower-case negation: "NOT (x < 3)" would
+			// compile as a call of an unknown function NOT.
+			if (c == 'N' || c == 'n') && hasWordAt(s, i, "not") && !isWordChar(prev) {
+				next := byte(0)
+				if i+3 < n {
+					next = s[i+3]
+				}
+				if !isWordChar(next) {
+					b.WriteString("not")
+					i += 2
+					prev = 't'
 					continue
 				}
 			}
